@@ -154,8 +154,9 @@ def run(ctx):
     ctx.coverage["trusted_base"] = list(V.GLOBAL_TRUSTED_BASE) + [
         "the translator's reading of each serialize() body (translator/c16_ser.py: statement parser + regexes); it is "
         "cross-checked only by the behavioural pool-level correspondence",
-        "modelled rather than verified: the XTemplateSerializer container loops, XProtoType class-name records and the "
-        "store/load pools (object identity) - covered by the pool-level correspondence only; store/load helper pairs "
+        "modelled at tag level (ModelObj16.v, tied by the `obj` correspondence on real objects): store/load pools and class "
+        "records; the class-name bytes of XProtoType::store/load are covered by the engine theorem's XMLByte strings and by "
+        "the pool-level correspondence; store/load helper pairs "
         "(storeDV/loadDV, storeIC/loadIC, storeElementDecl/loadElementDecl, storeClusive/loadClusive, storeGrammar/"
         "loadGrammar) are compared by name, their bodies are covered by the correspondence only"]
     ctx.assumptions = ["little-endian host with sizeof(long) = sizeof(XMLSize_t) = 8, sizeof(int) = 4, sizeof(XMLCh) = 2",
@@ -178,7 +179,12 @@ def run(ctx):
     ctx.coverage["ser_unknown_types"] = unknown
     ctx.note("T-ser: %d classes, %d with unparsed items (correspondence only), %d with undetermined field types; level %d, "
              "bufsize %d" % (len(side["classes"]), len(unparsed), len(unknown), side["level"], side["bufsize"]))
-    nparsed = len(side["classes"]) - len(unparsed)
+    cunparsed = [e for e in side["containers"] if e["unparsed"]]
+    ctx.coverage["ser_containers"] = len(side["containers"])
+    ctx.coverage["ser_containers_unparsed"] = {e["sig"]: e["unparsed"] for e in cunparsed}
+    ctx.coverage["ser_containers_narrowing"] = {e["sig"]: e["narrowing"] for e in side["containers"] if e["narrowing"]}
+    ctx.note("T-ser containers: %d storeObject/loadObject pairs, %d with unparsed items" % (len(side["containers"]), len(cunparsed)))
+    nparsed = len(side["classes"]) - len(unparsed) + len(side["containers"]) - len(cunparsed)
     # 3. prove
     ok, out, failed = ctx.prove(["Base", "Gen", "C16"],
                                 ["theories/C16/Properties_C16.vo", "theories/C16/Extract_C16.vo"],
@@ -203,7 +209,12 @@ def run(ctx):
             return
         rc, impl, err = run_bin(xh, [req])
         ctx.note("replay impl: %s" % (impl[0][:2000] if impl else "crash rc=%d" % rc))
-        if req.startswith("eng"):
+        if req.startswith("obj"):
+            _, model, _ = run_bin(xm, [req])
+            ctx.note("replay model: %s" % model[0][:2000])
+            if not impl or impl[0] != model[0].rsplit(" re=", 1)[0]:
+                ctx.violation("obj-divergence", {"request": req, "impl": impl[0] if impl else None, "model": model[0]})
+        elif req.startswith("eng"):
             _, model, _ = run_bin(xm, [req])
             ctx.note("replay model: %s" % model[0][:2000])
             if not impl or impl[0] != model[0]:
@@ -222,6 +233,21 @@ def run(ctx):
     byid = {c["id"]: c for c in side["classes"]}
     asym = [byid[int(x)]["name"] for x in m.group(1).split(",") if x] if m else []
     opn = [byid[int(x)]["name"] for x in m.group(2).split(",") if x] if m else []
+    mt = re.search(r"tasym=\[([\d,]*)\] covered=(\w+) inserts=(\w+)", sym)
+    cbyid = {e["id"]: e for e in side["containers"]}
+    tasym = [cbyid[int(x)]["sig"] for x in mt.group(1).split(",") if x] if mt else []
+    if mt and mt.group(2) != "true":
+        tasym.append("(a stored container kind has no storeObject/loadObject pair)")
+    if mt and mt.group(3) != "true":
+        tasym.append("(insertion keys of a loadObject differ from the reviewed table Containers16.v)")
+    ctx.coverage["ser_container_obligations_failing"] = tasym
+    if tasym:
+        ctx.note("container helpers failing their obligation: %s" % tasym)
+        for e in side["containers"]:
+            if e["sig"] in tasym:
+                ctx.note("  %s store: %s" % (e["sig"], " ".join(e["store"])))
+                ctx.note("  %s load : %s" % (e["sig"], " ".join(e["load"])))
+    asym = asym + tasym
     ctx.coverage["ser_asymmetric"] = asym
     ctx.coverage["ser_abstract_checked_through_subclasses"] = opn
     if asym:
@@ -331,6 +357,56 @@ def run(ctx):
     ctx.coverage["spec_oracle_checked"] = len(agree) + len(diverging)
     ctx.note("engine: %d cases, %d divergences (%d attributed to F26), %.1fs" % (len(lines), len(diverging), f26_hits,
                                                                                time.time() - t0))
+    # ---- 5a'. object references: real store/load pools vs ModelObj16 --------------------------------------------
+    olines = []
+    for n in range(300 if ctx.tier == "quick" else 5000):
+        na, nt = ctx.rng.randrange(1, 7), ctx.rng.randrange(0, 3)
+        evs = []
+        for _ in range(ctx.rng.randrange(1, 26)):
+            r = ctx.rng.random()
+            if r < 0.12:
+                evs.append(ctx.rng.choice(["n0", "n1", "nt"]))
+            elif r < 0.3 and nt:
+                evs.append("t%d" % (100 + ctx.rng.randrange(nt)))
+            else:
+                ad = ctx.rng.randrange(na)
+                evs.append("o%d:%d" % (ad, ad % 2))         # one class per address
+        olines.append("obj %d %s" % (ctx.rng.choice([8, 12, 16, 64, 8192]), " ".join(evs)))
+    rco, oimpl, oerrs = run_bin(xh, olines)
+    _, omodel, _ = run_bin(xm, olines)
+    if rco != 0 or len(oimpl) != len(olines):
+        ctx.violation("harness-crash", {"what": "object-reference harness crashed", "rc": rco, "stderr": oerrs[-1000:],
+                                        "request": olines[len(oimpl)] if len(oimpl) < len(olines) else None})
+        return
+    shared = 0
+    for req, i, mo in zip(olines, oimpl, omodel):
+        ctx.count()
+        toks = req.split()[2:]
+        if len(set(toks)) < len(toks):
+            shared += 1
+            ctx.distinct(req)
+        if not mo.endswith(" re=1") or i != mo[:-5]:
+            # Spec: the loaded sharing pattern must be the stored one (computed here from the request itself)
+            first, want = {}, []
+            for tk in toks:
+                if tk[0] == "n":
+                    want.append("-")
+                else:
+                    key = tk.split(":")[0]
+                    first.setdefault(key, len(first))
+                    want.append(str(first[key]))
+            if i != "ok " + " ".join(want):
+                ctx.violation("obj-divergence", {"request": req, "impl": i, "model": mo,
+                                                 "what": "loaded object graph is not isomorphic to the stored one (sharing / null pattern differs)"})
+            else:
+                ctx.violation("correspondence", {"request": req, "impl": i, "model": mo,
+                                                 "what": "object-layer model differs from the engine although the engine's answer is right"},
+                              no_input=True)
+            break
+    ctx.coverage["traces_validated_against_impl"] += len(olines)
+    ctx.coverage["input_distribution"]["object_reference_runs"] = len(olines)
+    ctx.coverage["input_distribution"]["object_reference_runs_with_sharing"] = shared
+    ctx.note("object references: %d runs (%d with shared pointers), all equal to the model" % (len(olines), shared))
     # ---- 5b. pool-level correspondence ---------------------------------------------------------------------
     t1 = time.time()
     n_gr = (36 if ctx.tier == "quick" else 1500)
@@ -436,7 +512,8 @@ def run(ctx):
                                      "asymmetric_classes": asym, "output": out[-3000:]}, no_input=True)
     elif proof_broken:
         ctx.note("proof obligation failed; a concrete failing input was found by the correspondence")
-    ctx.coverage["rule"] = ("engine: seeded operation sequences (1-9 typed writes: 1/2/4/8-byte primitives, writeSize, raw blocks, "
+    ctx.coverage["rule"] = ("object references: 300 seeded event sequences (objects of two real classes with sharing, nulls, template "
+                            "containers) through the real engine vs ModelObj16, sharing pattern compared.  engine: seeded operation sequences (1-9 typed writes: 1/2/4/8-byte primitives, writeSize, raw blocks, "
                             "XMLCh/XMLByte strings with and without buffer length, null strings) at every buffer size 8..40 and "
                             "48..1000, 8192; half of the cases aim raw/string lengths at the buffer boundary (avail + {0,1,2}*bufSize "
                             "+-2); bytes and read-back compared with the extracted model; a case is non-trivial when more than one "
